@@ -229,6 +229,7 @@ class Unit:
         self.text = ""
         self.linemap = []   # per generated line (1-based index-1): dict(origin=..., region=..., line=...)
         self.imports = []
+        self.watched_changed = []
         self.props = {}     # fn name -> set(property ids) from //@ tags directives
         self.tags = []      # list of (kind, value)
 
@@ -329,6 +330,44 @@ class Unit:
                     out_lines.append("".join(cur))
                     linemap.append(cur_org)
                 reg.gen_lines = (start_line, len(out_lines))
+                self.regions.append(reg)
+                i = j + 1
+                continue
+            if s.startswith("//@ watch "):
+                # //@ watch src/x.rs : fn f  ... pinned copy ... //@ end
+                # A function the verifier cannot reach: nothing is generated, but any change to it is reported as drift,
+                # which makes the unit undecided and lets the bounded stand-in (replay search) run.
+                m = re.match(r"//@ watch (\S+)\s*:\s*(.+)$", s)
+                if not m:
+                    raise ExtractError("bad watch directive")
+                reg = Region(m.group(1), m.group(2).split(), i + 1)
+                j = i + 1
+                body = []
+                while j < len(lines) and not lines[j].strip().startswith("//@ end"):
+                    body.append(lines[j])
+                    j += 1
+                ttoks = lex("\n".join(body))
+                path = os.path.join(self.repo, reg.file)
+                if path not in src_cache:
+                    try:
+                        stoks = lex(open(path).read())
+                    except OSError as e:
+                        raise ExtractError("cannot read %s: %s" % (path, e))
+                    src_cache[path] = (stoks, rustlex.parse_items(stoks))
+                stoks, sitems = src_cache[path]
+                item = rustlex.find_item(sitems, reg.path)
+                if item is None:
+                    raise ExtractError("lost anchor: watched item `%s` not found in %s" % (" ".join(reg.path), reg.file))
+                a = texts(ttoks)
+                b = texts(stoks[item.start:item.end])
+                if a != b:
+                    sm = difflib.SequenceMatcher(None, a, b, autojunk=False)
+                    reg.drift = sum(max(i2 - i1, j2 - j1) for tag, i1, i2, j1, j2 in sm.get_opcodes() if tag != "equal")
+                    self.watched_changed.append(reg.name)
+                reg.name = "watch " + reg.name
+                out_lines.append("// ---- watched (not verified, pinned): /repo/%s : %s (drift tokens: %d)" % (reg.file, " ".join(reg.path), reg.drift))
+                linemap.append({"origin": "hdr", "region": reg.name})
+                reg.gen_lines = (len(out_lines), len(out_lines))
                 self.regions.append(reg)
                 i = j + 1
                 continue
